@@ -476,7 +476,6 @@ class RevisionMap:
         map_[revision.revision] = revision
 
         revisions = [revision]
-        self._add_branches(revisions, map_)
         self._map_branch_labels(revisions, map_)
         self._add_depends_on(revisions, map_)
 
@@ -494,6 +493,16 @@ class RevisionMap:
             not_none(map_[downrev]).add_nextrev(revision)
 
         self._normalize_depends_on(revisions, map_)
+
+        # branch labels depend on the shape of the whole graph (they are
+        # inherited from labelled ancestors and stop at branch points), so
+        # recompute them the way the initial load does
+        all_revisions = {rev for rev in map_.values() if rev is not None}
+        for rev in all_revisions:
+            rev.branch_labels = set(rev._orig_branch_labels)
+        self._add_branches(
+            [rev for rev in all_revisions if rev._orig_branch_labels], map_
+        )
 
         if revision._is_real_head:
             self._real_heads = tuple(
